@@ -146,7 +146,8 @@ def r4(cx):
     else:
         # split is applied to the captured stream (upvar 0)
         src = [d for l in ref_chain(du, splits[0].args[0].place.l) for k, d in du.defs.get(l, []) if k == "stmt"]
-        up = any((d.ops and d.ops[0].place is not None and d.ops[0].place.l == 1) or (d.rplace is not None and d.rplace.l == 1) for d in src)
+        up = any((d.ops and d.ops[0].place is not None and d.ops[0].place.l == 1) or (d.rplace is not None and d.rplace.l == 1) for d in src) or \
+             any(k == "arg" and o == 1 for k, o in Slice(w, du, extra_pass=("=as_mut", "=as_ref", "=deref_mut", "=deref", "=borrow_mut")).origins(splits[0].args[0]))
         if not up: why.append("split() is not applied to the captured stream")
         for t in hs:
             for ai, nm in ((1, "reader"), (2, "writer")):
